@@ -120,6 +120,7 @@ class VSeq(Val):
     container ('tuple', 'list', 'gen', 'range', 'vector-iter').
     """
     _n = 0
+    length_hook = None      # set by the interpreter: canonical length term of a filtered sequence
 
     def __init__(self, src_len, elem, pred=None, kind='tuple', length=None, cls_id=None):
         self.src_len = src_len      # z3 Int
@@ -134,6 +135,8 @@ class VSeq(Val):
         if self._length is None:
             if self.pred is None:
                 self._length = self.src_len
+            elif VSeq.length_hook is not None:
+                self._length = VSeq.length_hook(self)
             else:
                 VSeq._n += 1
                 self._length = z3.Int(f'flen!{VSeq._n}')
@@ -334,6 +337,9 @@ def veq(a, b, fresh_int=None):
     if isinstance(a, VSeq) and isinstance(b, (VTuple, VList)):
         return seq_eq(a, lit_to_seq(b), fresh_int)
     if isinstance(a, VObj) and isinstance(b, VObj):
+        if a.tag == 'vector' and b.tag == 'vector':
+            from .vecmodel import vec_eq
+            return vec_eq(a, b)
         return z3.BoolVal(a is b)
     if isinstance(a, VExc) or isinstance(b, VExc):
         return z3.BoolVal(a is b)
